@@ -23,7 +23,7 @@ def sh(cmd, cwd, env=None):
 
 def main():
     prop, m = sys.argv[1], sys.argv[2]
-    wt = '/tmp/mut/%s' % prop
+    wt = os.path.join(os.environ.get('MUT_BASE', '/tmp/mut'), prop)
     src = os.path.join(wt, '_mutants', m)
     patch = os.path.join(src, 'patch.diff')
     res = {'property': prop, 'origin': 'independent sub-agent given only the property text and a scratch worktree'}
